@@ -769,25 +769,51 @@ func caseC(c caseT) {
 
 // ---------------------------------------------------------------- stream d
 
+var lastDupIn, lastDupOut int // statistics of the document execDoc made last
+
 func execDoc(r *hx.Rng) []gen.Tok {
 	g, root := newDoc(hx.NewRng(r.U64()), true)
+	lastDupIn, lastDupOut = g.dupIn, g.dupOut
 	return g.document(root)
 }
 
+// fieldMarks: response key -> offsets of the field nodes that are let in, in collection order (mark "F:key" or "F:key#n").
 func fieldMarks(toks []gen.Tok, starts []int) map[string][]int {
-	marks := map[string][]int{}
+	type occ struct{ n, off int }
+	byKey := map[string][]occ{}
 	for i, t := range toks {
 		if strings.HasPrefix(t.Mark, "F:") {
-			marks[t.Mark[2:]] = append(marks[t.Mark[2:]], starts[i])
+			key, n := t.Mark[2:], 0
+			if j := strings.IndexByte(key, '#'); j >= 0 {
+				n, _ = strconv.Atoi(key[j+1:])
+				key = key[:j]
+			}
+			byKey[key] = append(byKey[key], occ{n, starts[i]})
+		}
+	}
+	marks := map[string][]int{}
+	for k, os := range byKey {
+		sort.SliceStable(os, func(a, b int) bool { return os[a].n < os[b].n })
+		for _, o := range os {
+			marks[k] = append(marks[k], o.off)
 		}
 	}
 	return marks
 }
 
+// execVars are passed with every executing request of streams d and e (the generator's @skip / @include use $on and $off).
+var execVars = map[string]interface{}{"on": true, "off": false}
+
 func genD(r *hx.Rng) (caseT, bool) {
 	toks := execDoc(r)
 	text, starts := gen.Layout(r, toks, gen.LayoutOpts{Dense: r.Chance(1, 4)})
 	marks := fieldMarks(toks, starts)
+	if lastDupOut > 0 {
+		run.Tag("d:document-with-an-occurrence-of-a-merged-field-kept-out-by-@skip/@include")
+	}
+	if lastDupIn > 0 {
+		run.Tag("d:document-with-a-further-included-occurrence-of-a-field")
+	}
 	return caseT{Stream: "d", Body: b64(text), FailSeed: r.U64() | 1, Marks: marks}, true
 }
 
@@ -854,7 +880,7 @@ func caseD(c caseT) {
 				det["panic"] = fmt.Sprint(r)
 			}
 		}()
-		res = graphql.Do(graphql.Params{Schema: schema, RequestString: body})
+		res = graphql.Do(graphql.Params{Schema: schema, RequestString: body, VariableValues: execVars})
 	}()
 	w := theWorld
 	if det["panic"] != nil {
@@ -1095,38 +1121,41 @@ func verdictValidation(body string, expect []int, errs []gqlerrors.FormattedErro
 
 // splitForeignPointer applies the weaker oracle for errors the library only relays (decision of the lead: a resolver that returns
 // or panics with a *gqlerrors.Error POINTER hands over an already located error; its locations and path are user data, outside
-// C18; the same pass-through carries the executor's own errors upwards): for every address whose resolver returned / panicked with a hand-built *gqlerrors.Error POINTER, if the response carries
+// C18; the same pass-through carries the executor's own errors upwards). The same holds for the shared sentinel errors (no path and
+// no locations / path only / locations only): HEAD relays them unchanged on EVERY occurrence — required exactly, per occurrence —
+// and must leave the sentinel objects untouched (checked first). For every address whose resolver returned / panicked with a hand-built *gqlerrors.Error POINTER, if the response carries
 // that very error with exactly its foreign locations (1:21 of another document) and foreign path [x 7 y], both the error and
 // the address are taken out (and the data at the address must still be null). Everything else stays for the ordinary oracles.
 func splitForeignPointer(res *graphql.Result, w *world) (errs []gqlerrors.FormattedError, failed []string, known int, note string) {
 	errs = append(errs, res.Errors...)
 	failed = append(failed, w.failed...)
-	for _, a := range w.foreignPtr {
+	if st := sentinelState(); st != sentinelSnapshot {
+		return errs, failed, 0, "a shared sentinel error object of the resolvers was modified by the library: now " + st + " was " + sentinelSnapshot
+	}
+	for _, rl := range w.relay {
 		for i, e := range errs {
-			if e.Message != "hand built "+a {
+			if e.Message != rl.msg || hx.Canon(e.Path) != hx.Canon(rl.path) || hx.Canon(locsOf(e)) != hx.Canon(rl.locs) {
 				continue
 			}
-			if hx.Canon(e.Path) == hx.Canon(foreignPath) && hx.Canon(locsOf(e)) == hx.Canon([]loc{{1, 21}}) {
-				var ap []interface{}
-				for _, k := range strings.Split(a, "/")[1:] {
-					if n, err := strconv.Atoi(k); err == nil {
-						ap = append(ap, n)
-					} else {
-						ap = append(ap, k)
-					}
+			var ap []interface{}
+			for _, k := range strings.Split(rl.addr, "/")[1:] {
+				if n, err := strconv.Atoi(k); err == nil {
+					ap = append(ap, n)
+				} else {
+					ap = append(ap, k)
 				}
-				if ok, why := nullAtPathOrPrefix(res.Data, ap); !ok {
-					return errs, failed, known, "field at " + a + " failed with a passed-through error but " + why
-				}
-				errs = append(errs[:i:i], errs[i+1:]...)
-				for j, f := range failed {
-					if f == a {
-						failed = append(failed[:j:j], failed[j+1:]...)
-						break
-					}
-				}
-				known++
 			}
+			if ok, why := nullAtPathOrPrefix(res.Data, ap); !ok {
+				return errs, failed, known, "field at " + rl.addr + " failed with a relayed error but " + why
+			}
+			errs = append(errs[:i:i], errs[i+1:]...)
+			for j, f := range failed {
+				if f == rl.addr {
+					failed = append(failed[:j:j], failed[j+1:]...)
+					break
+				}
+			}
+			known++
 			break
 		}
 	}
@@ -1222,7 +1251,14 @@ func caseE(c caseT) {
 			pr = pc.Get(&schema, body, "")
 			_, missesAfter = pc.HitsMisses()
 			if len(pr.Errors) == 0 && pr.Plan != nil {
-				res = graphql.ExecutePlan(pr.Plan, graphql.ExecuteParams{Schema: schema, Args: pr.SynthArgs})
+				args := map[string]interface{}{}
+				for k, v := range execVars {
+					args[k] = v
+				}
+				for k, v := range pr.SynthArgs {
+					args[k] = v
+				}
+				res = graphql.ExecutePlan(pr.Plan, graphql.ExecuteParams{Schema: schema, Args: args})
 			}
 		}()
 		w := theWorld
@@ -1425,7 +1461,7 @@ func main() {
 		{"c", run.N(1500, 60000), genC},
 		{"d", run.N(1000, 50000), genD},
 		{"p", run.N(300, 5000), genP},
-		{"e", run.N(500, 30000), genE},
+		{"e", run.N(400, 30000), genE},
 	}
 	// directed cases of stream b (exact oracle known by hand)
 	for _, d := range []struct {
